@@ -62,12 +62,14 @@ class SendRawPdu(PbMessageWrapper):
         """Convert a scapy packet to a SendPdu message
         """
         if Dot15d4FCS in packet:
-            pdu = bytes(packet[Dot15d4FCS])[:-2]
+            # Take PDU and FCS from the built frame (the fcs field is None when
+            # the FCS is left to scapy)
+            frame = bytes(packet[Dot15d4FCS])
 
             msg = SendRawPdu(
                 channel=channel,
-                pdu=pdu,
-                fcs=packet.fcs
+                pdu=frame[:-2],
+                fcs=unpack("<H", frame[-2:])[0]
             )
         elif Dot15d4 in packet:
             # Convert packet to bytes
